@@ -888,7 +888,7 @@ where
         let p_yx: Cond::Map<U> = Cond::map(|x| self[x].borrow().projection(ay));
         let u_yx = T::from_fn(|x| self[x].borrow().max_uncertainty(ay));
         let temp = U::map(|y| {
-            let is_all_zero = T::indexes().all(|x| p_yx[x][y] == V::zero());
+            let is_all_zero = T::indexes().all(|x| is_zero(p_yx[x][y]));
             if is_all_zero {
                 T::map(|_| V::one())
             } else {
